@@ -411,9 +411,16 @@ func initRollingFileLogger(
 	}
 
 	// Create appenders for the normal log file
+	// Without a logger-level layout the appenders format events themselves.
+	layout := f.Layout
+	if layout == nil {
+		layout = &TextLayout{BaseLayout: BaseLayout{FileLineLength: 48}}
+	}
+
 	appenders := []*AppenderRef{
 		{
 			Appender: &RollingFileAppender{
+				Layout:   layout,
 				FileDir:  f.FileDir,
 				FileName: f.FileName,
 				Rotation: f.Rotation,
@@ -430,6 +437,7 @@ func initRollingFileLogger(
 	if f.Separate {
 		appenders = append(appenders, &AppenderRef{
 			Appender: &RollingFileAppender{
+				Layout:   layout,
 				FileDir:  f.FileDir,
 				FileName: f.FileName + ".wf",
 				Rotation: f.Rotation,
